@@ -3347,6 +3347,166 @@ Qed.
 Theorem visit_okdeleg2 : forall e g hc pc ns code ns', visit bs e g hc pc ns = inr (code, ns') -> okdeleg2 code.
 Proof. intros e. apply (proj1 (visit_okdeleg2_aux e)). Qed.
 
+(* ---------- what a successful compilation says about look-behind bodies ---------- *)
+Fixpoint lbk (e : expr) : Prop :=
+  match e with
+  | LookAround c la =>
+      lbk c /\ (is_behind la = true ->
+                const_size c = true \/ exists es, c = Alt es /\ Forall (fun x => const_size x = true) es)
+  | Concat es | Alt es => (fix go (l : list expr) : Prop := match l with [] => True | x :: r => lbk x /\ go r end) es
+  | Group c | Repeat c _ _ _ | AtomicGroup c => lbk c
+  | Conditional c y n => lbk c /\ lbk y /\ lbk n
+  | _ => True
+  end.
+Fixpoint lbk_list (l : list expr) : Prop := match l with [] => True | x :: r => lbk x /\ lbk_list r end.
+Lemma lbk_concat es : lbk (Concat es) = lbk_list es. Proof. induction es; simpl in *; congruence. Qed.
+Lemma lbk_alt es : lbk (Alt es) = lbk_list es. Proof. induction es; simpl in *; congruence. Qed.
+Lemma lbk_list_app a b : lbk_list (a ++ b) <-> lbk_list a /\ lbk_list b.
+Proof. induction a as [|x a IH]; cbn [app lbk_list]; tauto. Qed.
+Lemma lbk_list_Forall l : lbk_list l <-> Forall lbk l.
+Proof. induction l as [|x r IH]; cbn [lbk_list]; split; intros H; auto; [destruct H; constructor; tauto|inversion H; tauto]. Qed.
+
+Lemma easyx_lbk : forall e, easyx e = true -> lbk e.
+Proof.
+  induction e using expr_ind'; intros He; try exact I; try discriminate.
+  - rewrite easyx_concat in He. rewrite lbk_concat. induction H as [|x r Hx Hr IH]; [exact I|].
+    cbn [forallb] in He. apply andb_true_iff in He as [H1 H2]. split; auto.
+  - rewrite easyx_alt in He. rewrite lbk_alt. induction H as [|x r Hx Hr IH]; [exact I|].
+    cbn [forallb] in He. apply andb_true_iff in He as [H1 H2]. split; auto.
+  - cbn [lbk]. apply IHe. exact He.
+  - cbn [lbk]. apply IHe. exact He.
+Qed.
+Lemma easyx_lbk_list l : forallb easyx l = true -> lbk_list l.
+Proof.
+  induction l as [|x r IH]; intros H; [exact I|]. cbn [forallb] in H. apply andb_true_iff in H as [H1 H2].
+  split; [now apply easyx_lbk|auto].
+Qed.
+
+Definition VL (e : expr) : Prop := forall g hc pc ns r, visit bs e g hc pc ns = inr r -> lbk e.
+
+Ltac vl_start x :=
+  intros g0 hc pc ns r0 Hv;
+  destruct (negb hc && negb (hard bs g0 x)) eqn:Edel;
+  [apply easyx_lbk; apply andb_true_iff in Edel as [_ Edel]; apply negb_true_iff in Edel; now apply (hard_easyx bs x g0)|].
+
+Definition cfok (cf : expr -> nat -> nat -> nat -> cerr + cres) (x : expr) : Prop :=
+  exists g pc ns r, cf x g pc ns = inr r.
+Lemma galt_all cf : forall l g pc ns r, galt_codes cf g pc ns l = inr r -> Forall (cfok cf) l.
+Proof.
+  induction l as [|x l IH]; intros g pc ns r Hc; [constructor|].
+  destruct l as [|y l].
+  - cbn [galt_codes] in Hc. destruct (cf x g pc ns) as [|rr] eqn:E; [discriminate|]. constructor; [|constructor].
+    now exists g, pc, ns, rr.
+  - rewrite galt_codes_cons2 in Hc. destruct (cf x g (pc + 1) ns) as [|[c n1]] eqn:E; [discriminate|].
+    destruct (galt_codes cf _ _ _ (y :: l)) as [|rr] eqn:E2; [discriminate|]. constructor; [|eapply IH; eauto].
+    now exists g, (pc + 1), ns, (c, n1).
+Qed.
+Lemma gseq_all cf : forall l g pc ns r, gseq_codes cf g pc ns l = inr r -> Forall (cfok cf) l.
+Proof.
+  induction l as [|x l IH]; intros g pc ns r Hc; [constructor|]. cbn [gseq_codes] in Hc.
+  apply bindc_inr in Hc as ([c1 n1] & H1 & Hc). apply bindc_inr in Hc as (r2 & H2 & _).
+  constructor; [|eapply IH; eauto]. now exists g, pc, ns, (c1, n1).
+Qed.
+
+Lemma la_inner_vl la x : VL x -> forall g pc ns r, la_inner la x g pc ns = inr r ->
+  lbk x /\ (is_behind la = true -> const_size x = true).
+Proof.
+  intros Hx g pc ns r Hi. destruct la; cbn [la_inner is_behind] in *; try (split; [eapply Hx; eauto|discriminate]);
+    (destruct (const_size x); [|discriminate]); apply bindc_inr in Hi as (r1 & H1 & _); (split; [eapply Hx; eauto|auto]).
+Qed.
+Lemma la_pos_vl la x : VL x -> cfok (la_pos la) x -> lbk x /\ (is_behind la = true -> const_size x = true).
+Proof.
+  intros Hx (g & pc & ns & r & Hv). unfold la_pos in Hv. cbv zeta in Hv.
+  apply bindc_inr in Hv as (r1 & H1 & _). eapply la_inner_vl; eauto.
+Qed.
+Lemma la_neg_vl la x : VL x -> cfok (la_neg la) x -> lbk x /\ (is_behind la = true -> const_size x = true).
+Proof.
+  intros Hx (g & pc & ns & r & Hv). unfold la_neg in Hv.
+  apply bindc_inr in Hv as (r1 & H1 & _). eapply la_inner_vl; eauto.
+Qed.
+
+Lemma visit_list_vl : forall l, Forall VL l -> forall g pc ns r, visit_list g pc ns l = inr r -> lbk_list l.
+Proof.
+  induction 1 as [|x l Hx Hr IH]; intros g pc ns r Hv; cbn [visit_list] in Hv; [exact I|].
+  apply bindc_inr in Hv as ([c1 n1] & H1 & Hv). apply bindc_inr in Hv as (r2 & H2 & _).
+  split; [eapply Hx; eauto|eapply IH; eauto].
+Qed.
+
+Lemma visit_lbk_aux : forall e, VL e /\ Forall VL (alts_of e).
+Proof.
+  induction e using expr_ind'.
+  all: try match goal with |- VL ?e /\ Forall VL (alts_of ?e) =>
+         match e with
+         | Alt _ => idtac
+         | _ => assert (H1 : VL e); [|split; [exact H1|constructor; [exact H1|constructor]]] end end.
+  all: try (intros g0 hc pc ns r0 Hv; exact I).
+  - (* Concat *)
+    assert (Hk : Forall VL es) by (eapply Forall_impl; [|exact H]; intros a Ha; apply Ha).
+    vl_start (Concat es). rewrite visit_concat in Hv. rewrite Edel in Hv. cbv zeta in Hv.
+    pose proof (cat_bounds bs hc g0 es) as Hb. pose proof (suffix_easy hc es g0) as Hsuf.
+    pose proof (prefix_easy es g0) as Hpre.
+    unfold cat_pe, cat_sb in Hb, Hsuf. cbv zeta in Hb, Hsuf.
+    set (pe := prefix_count bs g0 es) in *. set (sb := length es - _) in *.
+    set (A := firstn pe es) in *. set (B := firstn (sb - pe) (skipn pe es)). set (C := skipn sb es) in *.
+    assert (Hes : es = A ++ B ++ C).
+    { unfold A, B, C. rewrite <- (firstn_skipn pe es) at 1. f_equal.
+      rewrite <- (firstn_skipn (sb - pe) (skipn pe es)) at 1. f_equal. rewrite skipn_add. f_equal. lia. }
+    assert (HlA : length A = pe) by (unfold A; apply firstn_length_le; lia).
+    assert (HlB : length B = sb - pe) by (unfold B; apply firstn_length_le; rewrite skipn_length; lia).
+    apply bindc_inr in Hv as ([cm ns1] & Hm & Hv). clear Hv.
+    rewrite Hes in Hm. rewrite (mid_before pe sb (B ++ C) _ ns A 0 g0) in Hm by lia.
+    rewrite (mid_mid pe sb C B) in Hm by lia.
+    rewrite lbk_concat, Hes. apply lbk_list_app. split; [now apply easyx_lbk_list|].
+    apply lbk_list_app. split; [|now apply easyx_lbk_list].
+    rewrite Hes in Hk. apply Forall_app in Hk as [_ Hk]. apply Forall_app in Hk as [HkB _].
+    eapply visit_list_vl; eauto.
+  - (* Alt *)
+    assert (Hk : Forall VL es) by (eapply Forall_impl; [|exact H]; intros a Ha; apply Ha).
+    split; [|exact Hk]. vl_start (Alt es). rewrite visit_alt in Hv. rewrite Edel in Hv.
+    destruct (alt_codes hc g0 pc ns es) as [|[cds n1]] eqn:Hc; [discriminate|].
+    rewrite alt_codes_galt in Hc. apply galt_all in Hc. rewrite lbk_alt. apply lbk_list_Forall.
+    apply Forall_forall. intros x Hx. rewrite Forall_forall in Hk, Hc.
+    destruct (Hc x Hx) as (g & pc' & ns' & r' & Hr). eapply Hk; eauto.
+  - (* Group *) destruct IHe as [IHe _]. vl_start (Group e). cbn [visit] in Hv. rewrite Edel in Hv.
+    apply bindc_inr in Hv as ([c n1] & H1 & Hv). cbn [lbk]. eapply IHe; eauto.
+  - (* LookAround *) destruct IHe as [IHe IHalts]. vl_start (LookAround e la).
+    destruct (match la, e with (LookBehind | LookBehindNeg), Alt _ => negb (const_size e) | _, _ => false end) eqn:Esp.
+    + destruct e as [| | | | |es| | | | | | | | | | |]; try (destruct la; discriminate).
+      assert (Hcs : const_size (Alt es) = false) by (destruct la; try discriminate; now apply negb_true_iff in Esp).
+      cbn [alts_of] in IHalts.
+      assert (Hall : Forall (fun x => lbk x /\ const_size x = true) es).
+      { destruct la; try discriminate.
+        - rewrite (visit_lb_split es g0 hc pc ns Hcs) in Hv.
+          destruct (galt_codes (la_pos LookBehind) g0 pc ns es) as [|[cds n1]] eqn:Hc; [discriminate|].
+          apply galt_all in Hc. apply Forall_forall. intros x Hx. rewrite Forall_forall in IHalts, Hc.
+          destruct (la_pos_vl LookBehind x (IHalts x Hx) (Hc x Hx)) as [L1 L2]. split; auto.
+        - rewrite (visit_lbn_split es g0 hc pc ns Hcs) in Hv. apply gseq_all in Hv.
+          apply Forall_forall. intros x Hx. rewrite Forall_forall in IHalts, Hv.
+          destruct (la_neg_vl LookBehindNeg x (IHalts x Hx) (Hv x Hx)) as [L1 L2]. split; auto. }
+      assert (HAl : lbk (Alt es)).
+      { rewrite lbk_alt. apply lbk_list_Forall. eapply Forall_impl; [|exact Hall]. intros a Ha; apply Ha. }
+      split; [exact HAl|]. intros _. right. exists es. split; auto. eapply Forall_impl; [|exact Hall]. intros a Ha; apply Ha.
+    + assert (Hlb : lb_alt_const e la).
+      { destruct la; try exact I; destruct e; try exact I; cbn [lb_alt_const]; now apply negb_false_iff in Esp. }
+      rewrite (visit_la e la g0 hc pc ns Hlb) in Hv. rewrite Edel in Hv.
+      assert (HH : lbk e /\ (is_behind la = true -> const_size e = true)).
+      { destruct la; [eapply la_pos_vl|eapply la_neg_vl|eapply la_pos_vl|eapply la_neg_vl]; eauto;
+          now exists g0, pc, ns, r0. }
+      destruct HH as [L1 L2]. cbn [lbk]. split; auto.
+  - (* Repeat *) destruct IHe as [IHe _]. vl_start (Repeat e lo hi gr). cbn [visit] in Hv. rewrite Edel in Hv. cbn [lbk].
+    repeat match type of Hv with (if ?b then _ else _) = _ => destruct b end;
+      apply bindc_inr in Hv as ([c n1] & H1 & Hv); eapply IHe; eauto.
+  - (* AtomicGroup *) destruct IHe as [IHe _]. vl_start (AtomicGroup e). cbn [visit] in Hv. rewrite Edel in Hv.
+    apply bindc_inr in Hv as ([c n1] & H1 & Hv). cbn [lbk]. eapply IHe; eauto.
+  - (* Conditional *) destruct IHe1 as [IH1 _]. destruct IHe2 as [IH2 _]. destruct IHe3 as [IH3 _].
+    vl_start (Conditional e1 e2 e3). cbn [visit] in Hv. rewrite Edel in Hv.
+    apply bindc_inr in Hv as ([cc n1] & H1 & Hv). apply bindc_inr in Hv as ([cy n2] & H2 & Hv).
+    apply bindc_inr in Hv as ([cn n3] & H3 & Hv). cbn [lbk]. repeat split; [eapply IH1|eapply IH2|eapply IH3]; eauto.
+Qed.
+
+Theorem visit_lbk : forall e g hc pc ns r, visit bs e g hc pc ns = inr r -> lbk e.
+Proof. intros e. apply (proj1 (visit_lbk_aux e)). Qed.
+
 End D.
 
 End CC.
